@@ -48,7 +48,7 @@ def scenarios(rng, n, tier):
         periods = []
         n_ctor = rng.randint(1, 3) if rng.random() < 0.25 else 0
         if n_ctor:
-            scn["ctor_kind"] = rng.choice(["set", "set", "list"])
+            scn["ctor_kind"] = rng.choice(["set", "set", "list", "tuple", "gen", "iter", "frozenset"])
         for _ in range(rng.randint(5, 40)):
             c = rng.random()
             if nk < n_ctor:
